@@ -836,14 +836,21 @@ func runReuse(c *Case, tr *Trace) {
 			}
 			return nil
 		}
+		// afterfail: the history is meant to fail (one-shot Parse re-initialises the parser); the probe runs anyway
+		afterfail, _ := c.Sub["afterfail"].(bool)
 		for _, d := range docs {
 			if err := parse(p, d); err != nil {
-				histErr = err.Error()
+				if histErr == "" {
+					histErr = err.Error()
+				}
+				if afterfail {
+					continue
+				}
 				break
 			}
 			deps = append(deps, depthsOf(p))
 		}
-		if histErr == "" {
+		if histErr == "" || afterfail {
 			mark := len(rec.Events)
 			errR := parse(p, probe)
 			deps = append(deps, depthsOf(p))
